@@ -226,9 +226,26 @@ def run(prog, tier) -> Result:
             return None
         cr.run("R13.5", rd, f"__round__ [{fl}]", setup_r, judge_r)
 
+        def setup_r0(c, fl=fl):
+            c.new_type("T", **FLAVORS[fl])
+            return [c.qty("self", c.unit("us", "T"))], {}
+
+        def judge_r0(o, judge_r=judge_r):
+            # round(q): no number of digits means none after the point (0, or None as for the built-in numbers)
+            st = o.state
+            if o.kind == "raise":
+                return (exc_sig(o), "")
+            eff = [e for e in st.effects if e[0] == "pyround"]
+            nd = eff[-1][2] if eff else "?"
+            if not (nd is None or isinstance(nd, NoneV) or (isinstance(nd, Num) and st.norm(nd.rf).equals(RF.const(0)))):
+                return ("round(q) does not round to whole amounts", repr(nd))
+            s = o.args[0]
+            return judge_qty(o, unit=s.unit, tid=s.tid, max_depth=1)
+        cr.run("R13.5", rd, f"__round__ without digits [{fl}]", setup_r0, judge_r0)
+
     res.require("R13.1", 16)
     res.require("R13.2", 3)
     res.require("R13.3", 4)
     res.require("R13.4", 4)
-    res.require("R13.5", 3)
+    res.require("R13.5", 6)
     return res
